@@ -393,6 +393,29 @@ func (g *gen) mutDictField(v reflect.Value, f Field, nav []NavStep, depth int, s
 	var arg any
 	kind := ""
 	cfg := g.st.Cfg
+	// float twins (motif.go): the second twin when this field is visited again, or a new pair
+	if g.main && canFreeze && !cfg.NoFrozen {
+		tk := navKey(nav) + "/" + n
+		if tw := g.st.twins[tk]; tw != nil && g.r.Chance(2, 3) {
+			delete(g.st.twins, tk)
+			if g.do(nav, &Call{M: "Set" + n, Args: []any{tw}, Tag: 'S', Ty: f.Type, Get: n}) {
+				g.stat("dict-set-float-twin-second")
+			}
+			return
+		}
+		if g.r.Chance(1, 10) {
+			if a, b, ok := g.floatTwins(f.Type, pt, depth, stack); ok {
+				if g.do(nav, &Call{M: "Set" + n, Args: []any{a}, Tag: 'S', Ty: f.Type, Get: n}) {
+					if g.st.twins == nil {
+						g.st.twins = map[string]*ObjSpec{}
+					}
+					g.st.twins[tk] = b
+					g.stat("dict-set-float-twin-first")
+				}
+				return
+			}
+		}
+	}
 	x := g.r.Intn(20)
 	if !g.main || cfg.NoFrozen {
 		// the shadow record and objects under construction own all their values
